@@ -113,8 +113,11 @@ HalfBroken == {<<RR("a", <<"x">>), [Base["remove_columns"] EXCEPT !.fault = [f |
                <<[Base["rename_columns"] EXCEPT !.fault = [f |-> "unknown-operation", p |-> ""]], RR("a", <<"x">>)>>}
 SeqOpLists == Pairs(SeqPool) \cup HalfBroken
 SeqOpListsBig == Pairs(SeqPoolBig) \cup HalfBroken
-               \cup {<<x, y, z>> : x \in {RO(<<"b", "a">>, TRUE, TRUE), SP("a", Evs2, FALSE), RM(<<"a">>, <<"m">>, << <<"x", "X">>, <<"y", "Y">>, <<"1", "I">> >>, TRUE)},
-                                   y \in SeqPool, z \in SeqPool}
+               \cup {<<x, y, z>> : x \in {RO(<<"b", "a">>, TRUE, TRUE), SP("a", Evs2, FALSE)},
+                                   y \in SeqPool,
+                                   z \in {RR("a", <<"y">>), RO(<<"a">>, TRUE, FALSE), FCvn("a", <<"x">>, <<"m">>),
+                                          RM(<<"a">>, <<"m">>, << <<"x", "X">>, <<"y", "Y">>, <<"1", "I">> >>, TRUE),
+                                          MGm("a", "x", TRUE, TRUE, <<>>)}}
 
 (* ---------------- tables ---------------- *)
 Row(cs, vs) == [c \in Range(cs) |-> vs[IndexOf(cs, c)]]
@@ -146,7 +149,7 @@ TD == T(L3, P3, <<1, 1, 2>>)
 TE == T(L1, P1, <<4, 1, 1>>)
 TF == T(L2, P2, <<4, 4>>)
 SeqTuplesQuick == {<<TA, TB>>, <<TC, TA, TD>>}
-SeqTuplesThorough == {<<TA, TB>>, <<TC, TA, TD>>, <<TB, TC>>, <<TE, TF, TA>>, <<TD, TC, TB>>, <<TA>>}
+SeqTuplesThorough == {<<TA, TB>>, <<TC, TA, TD>>, <<TE, TF, TA>>, <<TD, TC, TB>>, <<TA>>}
 
 (* ---------------- emission ---------------- *)
 Finished == ~Valid(ops0) \/ Len(hist) = MaxRuns
